@@ -11,7 +11,7 @@ import (
 	"golang.org/x/tools/go/ssa"
 )
 
-func constantBool(c *ssa.Const) bool     { return constant.BoolVal(c.Value) }
+func constantBool(c *ssa.Const) bool { return constant.BoolVal(c.Value) }
 func constantString(c *ssa.Const) string {
 	if c.Value.Kind() == constant.String {
 		return constant.StringVal(c.Value)
